@@ -247,8 +247,12 @@ func gen(g *common.Gen) {
 				nseg = (p.size-1)/8000 + 1
 				g.Stat("consume-versioned-name")
 			}
-			g.Op("consume name=%s script=%s", nm, genScript(r, g, nseg))
+			capx := common.Pick(r, []int{0, 0, 1, 4})
+			g.Op("consume name=%s script=%s cap=%d", nm, genScript(r, g, nseg), capx)
 			g.Stat("consume")
+			if capx > 0 {
+				g.Stat("consume-name-with-spare-capacity")
+			}
 		}
 		for k := r.Range(1, 3); k > 0; k-- {
 			probe()
@@ -332,7 +336,7 @@ func genDirect(r *common.Rand, g *common.Gen) {
 // many keys under one prefix (bolt's prefix scan gives up after 999 keys)
 func genFill(r *common.Rand, g *common.Gen) {
 	n := common.Pick(r, []int{300, 998, 999, 1000, 1005})
-	g.Op("sfill pfx=/8:66 n=%d ver=%d", n, r.Range(0, 3))
+	g.Op("sfill pfx=/8:66 n=%d ver=%d asc=%d", n, r.Range(0, 3), r.Intn(2))
 	g.Stat("sfill")
 	g.Op("get name=/8:66 pfx=1")
 	g.Op("get name=/ pfx=1")
